@@ -29,6 +29,25 @@ def call_sequences(maxlen):
     return seqs, r
 
 
+def long_sequences(num, length, sd):
+    """`num` behaviours of exactly `length` calls of OptCalls.tla over its LongMenu, drawn by `tlc -simulate`"""
+    os.makedirs(GEN, exist_ok=True)
+    cfg = os.path.join(GEN, f"OptCalls_long_{length}.cfg")
+    open(cfg, "w").write(f"INIT Init\nNEXT Next\nCONSTANTS\n  MaxLen = {length}\n  Menu <- LongMenu\nINVARIANT EmitFull\n")
+    r = tlc.run("OptCalls.tla", cfg, workers=1, simulate=num, depth=length + 1, seed=sd, timeout=1200)
+    if r.violation:
+        raise Machinery("OptCalls.tla (long): " + r.violation[:1000])
+    seqs = []
+    for line in r.out.splitlines():
+        if line.startswith('"[\\"SEQ'):
+            seqs.append(json.loads(json.loads(line))[1])
+    if len(seqs) < num // 2 or any(len(s) != length for s in seqs):
+        raise Machinery(f"OptCalls.tla (long): {len(seqs)} behaviours of length {length} emitted, {num} asked for")
+    if not any("+" in c.get("dis", "") for s in seqs for c in s):
+        raise Machinery("OptCalls.tla (long): no step with two one-call flag arguments was drawn")
+    return seqs
+
+
 def validate(traces, workers=6, batch=400):
     """-> {index into traces: [(event number, clause), ...]} for traces with violated clauses; raises Machinery if a trace got no verdict"""
     verdicts = {}
@@ -155,6 +174,11 @@ def run(prop, level, rule):
     for s_ in r4:
         for p_ in rnd.sample(problems, 2 if q else 6) + rnd.sample(hard, min(len(hard), 3 if q else 8)):
             jobs.append((p_, s_, None))
+    # long histories: behaviours of 8 (12) calls over the long menu (steps with two one-call flag arguments, enabling a target for one call), half of
+    # them on problems whose solves fail
+    longs = long_sequences(500 if q else 4000, 8 if q else 12, seed() + 17)
+    for li, s_ in enumerate(longs):
+        jobs.append(((hard if li % 2 else problems)[li % len(hard if li % 2 else problems)], s_, None))
     fails, stats, samples, extra = par.run_workers("harness.opt_driver", {"jobs": jobs, "scratch": scratch, "seed": seed(), "max_faults": 4 if q else 12},
                                                     14, collect=("traces", "readables"))
     traces, readables = [], {}
@@ -201,7 +225,7 @@ def run(prop, level, rule):
                         "probes_reached": reached if reached is not None else "thorough tier / ./check selftest"},
           protocol_traces={"module": "OptProtoTrace.tla", "traces": len(traces), "rejected_by_property": dict(nrej), "states": pstates}, traces_validated_against_impl=stats["traces"],
           distinct_nontrivial=stats["failing_calls"] + stats["twin_checked"], call_sequences_enumerated=len(seqs), problems=nprob,
-          driver_stats=dict(stats), flag_log_solver_sequences_of_4=len(r4), violated_clause_instances=dict(nclauses), exhaustive=False)
+          driver_stats=dict(stats), flag_log_solver_sequences_of_4=len(r4), long_histories={"behaviours": len(longs), "calls_each": len(longs[0])}, violated_clause_instances=dict(nclauses), exhaustive=False)
     v.assume("the numeric content of every measurement (penalties, tolerances, limits, step sizes) is computed by the harness oracle from the user function; TLC decides "
              "what the optimizer did with them (order-preserving / injective integer abstractions: interned points, penalty ranks, ppm ratios, ulp distances)",
              "merit functions are deterministic and come from generated families (linear consistent / inconsistent / rank-deficient, quadratic, trigonometric; 1-4 knobs, 1-5 targets)",
